@@ -145,6 +145,16 @@ M = [
     ("C06", "writer-shift", "dissect/cstruct/bitbuffer.py", "self._buffer |= data << (self._type.size * 8 - self._remaining)", "self._buffer |= data << (self._type.size * 8 - self._remaining) if bits != 5 else data << bits"),
     ("C06", "straddle-lt", "dissect/cstruct/types/structure.py", "                if bits_remaining < 0:\n                    raise ValueError", "                if bits_remaining < -1:\n                    raise ValueError"),
     ("C06", "no-new-unit-on-type-change", "dissect/cstruct/bitbuffer.py", "        if self._remaining == 0 or self._type != field_type:\n            if field_type.size is None:\n                raise ValueError(\"Reading", "        if self._remaining == 0 or (self._type != field_type and self._type is None):\n            if field_type.size is None:\n                raise ValueError(\"Reading"),
+    # --- added from the audit round (changes that reviewers showed to pass the tests AND the checks as they stood then)
+    ("C11", "proxy-chain-flattened", "dissect/cstruct/types/structure.py", "                    proxy = UnionProxy(self, attr, nested_value)\n                    object.__setattr__(value, field._name, proxy)\n                    while isinstance(nested_value, UnionProxy):\n                        nested_value = nested_value.__target__\n", "                    while isinstance(nested_value, UnionProxy):\n                        nested_value = nested_value.__target__\n                    proxy = UnionProxy(self, attr, nested_value)\n                    object.__setattr__(value, field._name, proxy)\n"),
+    ("C16", "and-loses-stream", "dissect/cstruct/types/pointer.py", "return type.__call__(self.__class__, int.__and__(self, other), self._stream, self._context)", "return type.__call__(self.__class__, int.__and__(self, other), None, self._context)"),
+    ("C16", "pointer-read-signed", "dissect/cstruct/types/pointer.py", "return cls.__new__(cls, cls.cs.pointer._read(stream, context), stream, context)", "v = cls.cs.pointer._read(stream, context); return cls.__new__(cls, v - (1 << (8 * cls.size)) if v >> (8 * cls.size - 1) else v, stream, context)"),
+    ("C03", "block-seek-only-when-aligned", "dissect/cstruct/compiler.py", "                if not current_block and field.offset is not None and field.offset != current_offset:", "                if self.align and not current_block and field.offset is not None and field.offset != current_offset:"),
+    ("C17", "lookup-declared-members-only", "dissect/cstruct/types/structure.py", "lookup.update(field.type.fields)", "lookup.update({f.name: f for f in field.type.__fields__ if f.name is not None})"),
+    ("C20", "uint128-named-int128", "dissect/cstruct/cstruct.py", '"uint128": self._make_int_type("uint128", 16, False, alignment=16)', '"uint128": self._make_int_type("int128", 16, False, alignment=16)'),
+    ("C04", "alias-ull-32bit", "dissect/cstruct/cstruct.py", '"unsigned long long": "uint64"', '"unsigned long long": "uint32"'),
+    ("C03", "bitbuffer-endian-baked", "dissect/cstruct/compiler.py", 'preamble += "bit_reader = BitBuffer(stream, cls.cs.endian)\\n"', 'preamble += f\'bit_reader = BitBuffer(stream, "{self.cs.endian}")\\n\''),
+    ("C18", "stale-read-plan", "dissect/cstruct/types/structure.py", "        result = {}\n        sizes = {}\n        for field in cls.__fields__:\n            offset = stream.tell()\n", "        result = {}\n        sizes = {}\n        plan = cls.__dict__.get(\"_plan\")\n        if plan is None:\n            plan = list(cls.__fields__)\n            type.__setattr__(cls, \"_plan\", plan)\n        for field in plan:\n            offset = stream.tell()\n"),
 ]
 
 
